@@ -341,8 +341,18 @@ func (b *StringBuilder) WriteSubstring(source String, start int, end int) {
 			return
 		}
 	}
-	b.unicodeBuilder.buf = append(b.unicodeBuilder.buf, us[start+1:end+1]...)
-	b.unicodeBuilder.unicode = true
+	chunk := us[start+1 : end+1]
+	b.unicodeBuilder.buf = append(b.unicodeBuilder.buf, chunk...)
+	if !b.unicodeBuilder.unicode {
+		// The builder may be in UTF-16 mode without containing any non-ASCII character yet (LikelyUnicode()).
+		// The result must only be marked as unicode if it really contains one.
+		for _, c := range chunk {
+			if c >= utf8.RuneSelf {
+				b.unicodeBuilder.unicode = true
+				break
+			}
+		}
+	}
 }
 
 func (s unicodeString) Reader() io.RuneReader {
